@@ -294,6 +294,36 @@ def two_cluster_gene(w, gid, chrom, start, strand="+", n_iso=1):
     return g, ex[-1][1]
 
 
+def nested_gene_locus(w, gid, chrom, start, strand="+"):
+    """A host gene with a long first intron and an annotated two-exon gene of the OTHER strand nested inside that intron.  Three separate
+    read clusters: unspliced reads over the host's first exon (the nested gene does not overlap them), spliced reads of the nested gene
+    (inside the host's span: both genes overlap the cluster), reads over host exons 2-4 (two of them skipping exon 3)."""
+    other = "-" if strand == "+" else "+"
+    hx = [(start, start + 420), (start + 6200, start + 6450), (start + 7100, start + 7330), (start + 8000, start + 8500)]
+    nx = [(start + 2300, start + 2620), (start + 3300, start + 3700)]
+    host = Gene(gid + "H", chrom, strand)
+    host.transcripts.append(Transcript(gid + "H.t1", gid + "H", chrom, strand, hx, True, "host-of-nested-gene"))
+    host.transcripts.append(Transcript(gid + "H.t2", gid + "H", chrom, strand, [hx[0], hx[1], hx[3]], True, "host-of-nested-gene"))
+    nested = Gene(gid + "N", chrom, other)
+    nested.transcripts.append(Transcript(gid + "N.t1", gid + "N", chrom, other, nx, True, "nested-gene"))
+    for g in (host, nested):
+        for t in g.transcripts:
+            for intr in t.introns:
+                w.plant_sites(chrom, intr, g.strand)
+        w.genes.append(g)
+    for k in range(4):
+        w.make_read(chrom, [(hx[0][0] + 6 * k, hx[0][1] - 4 * k)], polyt=25 if strand == "-" and k % 2 else 0, flag=16 if strand == "-" else 0,
+                    truth={"src": gid + "H.t1", "class": "host-first-exon-only"})
+    for k in range(5):
+        w.make_read(chrom, [(nx[0][0] + 3 * k, nx[0][1]), (nx[1][0], nx[1][1] - 2 * k)], polya=25 if other == "+" else 0, polyt=25 if other == "-" else 0,
+                    flag=16 if other == "-" else 0, truth={"src": gid + "N.t1", "class": "nested-gene-read"})
+    for k in range(5):
+        ex = [(hx[1][0] + 4 * k, hx[1][1]), hx[2], (hx[3][0], hx[3][1] - 3 * k)] if k < 3 else [(hx[1][0] + 4 * k, hx[1][1]), (hx[3][0], hx[3][1] - 3 * k)]
+        w.make_read(chrom, ex, polya=25 if strand == "+" else 0, flag=16 if strand == "-" else 0,
+                    truth={"src": gid + ("H.t1" if k < 3 else "H.t2"), "class": "host-3prime-part"})
+    return host, hx[-1][1]
+
+
 def strip_tails(w):
     """Remove soft-clipped polyA/polyT tails from every read (polyA-trimmed data set)."""
     for r in w.reads:
@@ -894,7 +924,7 @@ def gene_valley_locus(w, gid, chrom, p, strand):
 
 ZOO_ALL = ("ambiguous_only", "twins", "contested", "intronic", "apa", "alt_terminal", "shifted_site", "shared_chain", "same_coords",
            "one_bp_exon", "lowmapq_two_exon", "mono_only", "gap_gene", "gene_valley", "odd_chroms",
-           "near_site_novel", "low_cov_novel", "two_exon_alt_polya", "dense_two_exon", "antisense_shared_exon", "micro_exon_sibling", "mixed_strand_gene", "two_cluster", "early_end_isoform", "noncanonical_novel", "two_genes_shared_introns", "weak_known_sibling")
+           "near_site_novel", "low_cov_novel", "two_exon_alt_polya", "dense_two_exon", "antisense_shared_exon", "micro_exon_sibling", "mixed_strand_gene", "two_cluster", "early_end_isoform", "noncanonical_novel", "two_genes_shared_introns", "weak_known_sibling", "nested_gene")
 ZOO_NO_TIES = tuple(z for z in ZOO_ALL if z != "twins")
 
 
@@ -1071,6 +1101,9 @@ def add_zoo(w, parts=ZOO_ALL):
         if "weak_known_sibling" in parts and room(8000):
             weak_known_sibling_locus(w, "ZWK" + tag, chrom, _free_pos(w, chrom), "+-"[ci % 2])
             placed.add("weak_known_sibling")
+        if "nested_gene" in parts and ci % 2 == 1 and room(12000):
+            nested_gene_locus(w, "ZNE" + tag, chrom, _free_pos(w, chrom, 3000), "+-"[(ci // 2) % 2])
+            placed.add("nested_gene")
         if "early_end_isoform" in parts and room(6500):
             early_end_isoform_locus(w, "ZEE" + tag, chrom, _free_pos(w, chrom), "+-"[ci % 2])
             placed.add("early_end_isoform")
